@@ -85,10 +85,16 @@ def run(run):
                 if okv:
                     arg = strip(val[2][0])
                     # from_utf8(to_vec(deref(body))).@Ok.0
-                    okv = arg[0] == "field" and "@Ok" in arg[2] and strip(arg[1])[0] == "call" and strip(arg[1])[1] == "alloc::string::String::from_utf8"
+                    # both strict validators are accepted: String::from_utf8(body.to_vec()) and str::from_utf8(&body)
+                    while arg[0] == "call" and re.search(r"[dD]eref>?::deref$|::as_str$|::as_ref$|::borrow$", arg[1]) and arg[2]:
+                        arg = strip(arg[2][0])
+                    okv = arg[0] == "field" and "@Ok" in arg[2] and strip(arg[1])[0] == "call" and \
+                        strip(arg[1])[1] in ("alloc::string::String::from_utf8", "core::str::converts::from_utf8")
                     if okv:
                         src = strip(strip(arg[1])[2][0])
-                        okv = src[0] == "call" and src[1].endswith("<impl [T]>::to_vec") and mentions(src[2][0], lambda z: z[0] == "param" and z[1] == 1)
+                        while src[0] == "call" and re.search(r"<impl \[T\]>::to_vec$|[dD]eref>?::deref$|::as_ref$|Vec::<T>::from|::into$|::to_owned$", src[1]) and src[2]:
+                            src = strip(src[2][0])
+                        okv = src[0] == "param" and src[1] == 1 and not any(f in ("[]",) for f in src[2])
                         if not okv:
                             detail = "the decoded bytes are `%s`, not the whole body" % expr_str(src)[:100]
                     else:
